@@ -70,7 +70,15 @@ type tickOp struct {
 }
 
 // tickCanon moves netmap.NewEpoch events to the end and sorts each run of consecutive events of one contract.
-func tickCanon(l []Notif) []string {
+func tickCanon(in []Notif) []string {
+	// Balance's TransferX carries a details field whose encoding is Balance's business (C09): from, to, amount count here
+	l := make([]Notif, len(in))
+	for i, nf := range in {
+		l[i] = nf
+		if nf.Contract == "balance" && nf.Name == "TransferX" && len(nf.Args) == 4 {
+			l[i].Args = nf.Args[:3]
+		}
+	}
 	var out, own []string
 	for i := 0; i < len(l); {
 		if l[i].Contract == "netmap" && l[i].Name == "NewEpoch" {
@@ -423,6 +431,10 @@ func (d *TickDriver) Step(x *Exec, n *Node, i int) StepResult {
 		if obs.Halt {
 			out = "HALT:noop"
 			// "updating an unknown candidate ... fails without effect": storage stays, but a success event is an effect
+			// exactly the event of the finding (one UpdateStateSuccess(K, Offline)); any other event is no part of it
+			if d.Mode == "C07" && len(obs.Notifs) > 0 && !(len(obs.Notifs) == 1 && obs.Notifs[0].Contract == "netmap" && obs.Notifs[0].Name == "UpdateStateSuccess" && len(obs.Notifs[0].Args) == 2 && Same(obs.Notifs[0].Args[1], "i2")) {
+				return viol("unspecified-but-notified", fmt.Sprintf("%s on a key in neither list announces %v", d.OpName(n, i), obs.Notifs))
+			}
 			if len(obs.Notifs) > 0 && d.Mode == "C07" {
 				soft = append(soft, Viol("unknown-candidate-update-succeeds", fmt.Sprintf("%s on a key in neither list halts and announces %v", d.OpName(n, i), obs.Notifs), map[string]any{"op": o.kind, "state": "offline", "candidate": "unknown"}))
 			}
